@@ -71,3 +71,11 @@ Proof. exact trace_written. Qed.
 Theorem C07_trace_ends_properly : forall p m q wq fq svc,
   ~ In TOutOfFuel (serve_conn p m q wq fq svc) /\ ~ In TPanic (serve_conn p m q wq fq svc).
 Proof. exact Totality.serve_conn_terminates. Qed.
+
+(* non-vacuity of the arbitrary-input shape: junk that the TCP framing rejects only AFTER a good request -- the request is
+   answered (one frame under its own header), then the junk ends the connection with one report *)
+Example C07_trace_example :
+  serve_conn TCP debug_mode [RData ([0x00; 0x07; 0x00; 0x00; 0x00; 0x02; 0x2A; 0x11] ++ [0x00; 0x08; 0x00; 0x01; 0x00; 0x02; 0x2A; 0x11])] [] []
+             [SExc ExIllegalFunction]
+  = [TCall 0x2A ReqReportServerId; TWrote [0x00; 0x07; 0x00; 0x00; 0x00; 0x03; 0x2A; 0x91; 0x01]; TReport KInvalidData].
+Proof. vm_compute. reflexivity. Qed.
